@@ -6,6 +6,7 @@ usage: runner_min.py <programs.json> <behaviours.json> <out.json> <mode> [shard 
 mode: "suspended" (C01, C08), "referents" (C20), "running" (C02), "purity" (C06)"""
 import contextlib
 import gc
+import io
 import json
 import os
 import sys
@@ -114,6 +115,9 @@ class Env:
                 # aliased enter/exit methods; not in the fallback modes: the referents implementation recognises exit
                 # methods by their function name, a documented limitation outside C20's program space
                 cls = AM2 if self.r.is_async[i] else M2
+            elif ((i + self.pid) % 7 == 3 and not self.r.is_async[i] and self.r.shape[i] == "self"
+                  and not self.r.enter_raises[i]):
+                cls = MC        # __enter__ / __exit__ implemented in C (there is no Python frame of the method itself)
             elif (i + self.pid) % 5 == 0 and not self.r.is_async[i]:
                 cls = ES        # an ExitStack (its glue hook elaborates the Context: obj / varname / start_line must survive)
             elif i % 4 == 1 and self.r.is_async[i]:
@@ -193,6 +197,39 @@ class M:
         return self.i % 3 == 0
 
 
+class MC(io.StringIO):
+    """a manager whose __enter__ and __exit__ are C functions (io's): `with` calls builtin methods, and the frame inward of
+    the program's is not that of a function called __enter__ / __exit__.  The C code calls back into Python -- __enter__
+    reads self.closed, __exit__ calls self.close() and returns its result -- which is where the event protocol lives."""
+
+    def __init__(self, env, i, shape):
+        io.StringIO.__init__(self)
+        self.env, self.i, self.shape = env, i, shape
+        self.stage = "new"
+
+    @property
+    def closed(self):
+        if getattr(self, "stage", None) == "new":
+            self.stage = "entering"
+            ev = self.env.expect("enter", self.i)
+            self.env.inner_probe(ev, "enter", None)
+            self.env.expect("entered", self.i)
+            self.stage = "entered"
+        return False
+
+    def close(self):
+        if getattr(self, "stage", None) != "entered":
+            return False
+        self.stage = "exiting"
+        ev = self.env.expect("exit", self.i)
+        self.env.inner_probe(ev, "exit", None)
+        self.env.expect("exited", self.i)
+        self.stage = "done"
+        if self.env.r.exit_raises[self.i]:
+            raise Boom()
+        return self.i % 3 == 0
+
+
 class AM:
     def __init__(self, env, i, shape):
         self.env, self.i, self.shape = env, i, shape
@@ -237,11 +274,13 @@ def _reentrant_elaborate(mgr, context):
     stackscope.extract_outermost(_PARKED, with_contexts=False, recurse_child_tasks=True)
     # ... and resolves a callable bound to the target's manager, as a hook about to register something would: the
     # library may remember the code object, not the bound method (and with it the manager)
-    lowlevel.get_code(getattr(mgr, "__exit__", None) or mgr.__aexit__)
+    if not isinstance(mgr, MC):          # (a builtin method has no code object: get_code rightly refuses it)
+        lowlevel.get_code(getattr(mgr, "__exit__", None) or mgr.__aexit__)
 
 
 stackscope.elaborate_context.register(M)(_reentrant_elaborate)
 stackscope.elaborate_context.register(AM)(_reentrant_elaborate)
+stackscope.elaborate_context.register(MC)(_reentrant_elaborate)
 
 
 class M2(M):
